@@ -1430,8 +1430,12 @@ def check_C06(ctx):
         f = ln.split()
         if f[0] == 'S' and len(f[1]) // 2 <= 120 and f[1] != '-':
             Hx.append('H S %s -' % f[1])
+    for a in addrs:
+        if len(a) <= 90:
+            for fn in 'abc':
+                Hx.append('H %s %s -' % (fn, hx(a)))
     for lb, nm in ((ld, 'default'), (ctx.snap.lib(rfc20=True, f5322=True, uscore=True), 'rfc20+f5322+uscore')):
-        hl = Hx if nm == 'default' else [h for h in Hx if h[2] in '3D46']
+        hl = Hx if nm == 'default' else [h for h in Hx if h[2] in '3D46abc']
         c_out, m_out = vlib.run_both(lb, ctx.snap, hl)
         ctx.rep.add_cases('read-extent(%s)' % nm, hl, c_out, lambda ln, o: not o.startswith('0 '), note='output: 1+highest index read, under-read flag, return code; compared with the access model')
         def further(a, b):      # the code reads further than the access model says, reads before the first byte, or returns another code
@@ -1442,7 +1446,7 @@ def check_C06(ctx):
         ctx.rep.notes.append('read-extent(%s): %d cases, %d with exactly the model\'s extent, %d where the code reads less than the model allows' % (nm, len(hl), sum(1 for a, b in zip(c_out, m_out) if a == b), sum(1 for a, b in zip(c_out, m_out) if a != b and not further(a, b))))
         def beyond(a): return 'BEYOND' in a or 'CRASH' in a or (len(a.split()) == 3 and a.split()[1] == '1')
         for l, a, b in sorted(bad, key=lambda t: (not beyond(t[1]), len(t[0])))[:3]:
-            ctx.rep.violation({'kind': 'read-extent', 'run': 'read-extent(%s)' % nm, 'case': l[:600], 'implementation': a[:200], 'model': b[:200], 'theorem': 'C06_*_access_model (LocalA.v, Local6531A.v, DomainA.v, IpA.v, SpecialA.v)',
+            ctx.rep.violation({'kind': 'read-extent', 'run': 'read-extent(%s)' % nm, 'case': l[:600], 'implementation': a[:200], 'model': b[:200], 'theorem': 'C06_*_access_model (LocalA.v, Local6531A.v, DomainA.v, IpA.v, SpecialA.v, EmailA.v)',
                                'explanation': 'the scanner reads outside [first byte, terminator]' if beyond(a) else
                                'the scanner reads further than the access model says (or returns another code): the index-level model no longer bounds what the code reads, so its no-out-of-range-read theorems no longer cover it'},
                               found_input=beyond(a))
